@@ -50,7 +50,10 @@ func makeNamedType(name string, underlying types.Type) *types.Named {
 }
 
 func makeReflectValue(t types.Type, v value) value {
-	return structure{rtype{t}, v}
+	if t == nil {
+		return structure{iface{}, iface{}, 0}
+	}
+	return structure{rtype{t}, v, 0}
 }
 
 // Given a reflect.Value, returns its rtype.
@@ -519,7 +522,14 @@ func newMethod(pkg *ssa.Package, recvType types.Type, name string) *ssa.Function
 	return fn
 }
 
+var reflectCache = map[*ssa.Program]*interpreter{}
+
 func initReflect(i *interpreter) {
+	if c := reflectCache[i.prog]; c != nil {
+		i.reflectPackage, i.rtypeMethods, i.errorMethods = c.reflectPackage, c.rtypeMethods, c.errorMethods
+		return
+	}
+	defer func() { reflectCache[i.prog] = i }()
 	i.reflectPackage = &ssa.Package{
 		Prog:    i.prog,
 		Pkg:     reflectTypesPackage,
@@ -553,6 +563,7 @@ func initReflect(i *interpreter) {
 		rV.SetUnderlying(types.NewStruct([]*types.Var{
 			types.NewField(token.NoPos, r.Pkg, "t", tEface, false), // a lie
 			types.NewField(token.NoPos, r.Pkg, "v", tEface, false),
+			types.NewField(token.NoPos, r.Pkg, "f", tEface, false),
 		}, nil))
 	}
 
@@ -569,6 +580,12 @@ func initReflect(i *interpreter) {
 		"Out":       newMethod(i.reflectPackage, rtypeType, "Out"),
 		"Size":      newMethod(i.reflectPackage, rtypeType, "Size"),
 		"String":    newMethod(i.reflectPackage, rtypeType, "String"),
+		"Name":       newMethod(i.reflectPackage, rtypeType, "Name"),
+		"PkgPath":    newMethod(i.reflectPackage, rtypeType, "PkgPath"),
+		"Len":        newMethod(i.reflectPackage, rtypeType, "Len"),
+		"Key":        newMethod(i.reflectPackage, rtypeType, "Key"),
+		"Comparable": newMethod(i.reflectPackage, rtypeType, "Comparable"),
+		"Implements": newMethod(i.reflectPackage, rtypeType, "Implements"),
 	}
 	i.errorMethods = methodSet{
 		"Error": newMethod(i.reflectPackage, errorType, "Error"),
